@@ -431,6 +431,7 @@ func extractC20() *lean {
 	l.def("maxRedirectsConst", "Option Nat", maxR, maxR)
 	c20ResponseCap(l, cl)
 	c20Sources(l)
+	c20CryptoTLS(l)
 
 	// registered server flags
 	var flags []string
